@@ -55,7 +55,7 @@ pub fn main() {
             "purity" => checks::group_purity(tier, seed, only),
             "helpers" => helpers_check::group_helpers(tier, seed, only),
             "purity_x" => checks::group_purity_x(tier, seed, only),
-            "text_arith" | "text_filter" | "text_plain" | "text_union" | "text_cmp" => checks::group_text(g, tier, seed, only),
+            "text_arith" | "text_filter" | "text_plain" | "text_union" | "text_cmp" | "text_e2e" => checks::group_text(g, tier, seed, only),
             "descendant" => checks::group_descendant(tier, seed, only),
             "selectors" => checks::group_selectors(tier, seed, only),
             "pointer_text" => checks::group_pointer_text(tier, seed, only),
